@@ -239,7 +239,11 @@ func checkC03(ctx *pbt.Ctx, c c03Case) error {
 		return fmt.Errorf("executing %q panicked: %s", text, res.Panic)
 	}
 	if res.Stage == "parse" {
+		if err := syntaxRejection(text, res.Err, len(c.Q.Proj)); err != nil {
+			return err
+		}
 		ctx.Label("rejected-by-parser")
+		ctx.Label("rejected:" + rejectionClass(res.Err))
 		return nil
 	}
 	cands := bq.Candidates(c.Data, c.Q.From)
@@ -456,4 +460,29 @@ func TestC03Shapes(t *testing.T) {
 	}
 	pbt.SetExtra("TestC03Shapes", "one_clause_shapes", nshapes)
 	pbt.SetExtra("TestC03Shapes", "sample_denominator", int(sample))
+}
+
+// rejectionClass abbreviates a parser error to its constant part.
+func rejectionClass(e string) string {
+	e = strings.TrimPrefix(e, "Parser.consume: ")
+	for _, cut := range []string{" got ", " in ", ";", "\"", "?", "/"} {
+		if i := strings.Index(e, cut); i > 0 {
+			e = e[:i]
+		}
+	}
+	if len(e) > 60 {
+		e = e[:60]
+	}
+	return e
+}
+
+// syntaxRejection: the printers of the generated fragment emit documented forms only, so a
+// statement with at least one projection that the parser rejects for its SYNTAX ("Failed to
+// consume ...") returns no rows for a pattern that may have solutions. Rejections by the
+// semantic hooks (unknown bindings, contradictory bounds, ...) are not judged here.
+func syntaxRejection(text, perr string, nproj int) error {
+	if nproj == 0 || !strings.Contains(perr, "Failed to consume") {
+		return nil
+	}
+	return fmt.Errorf("%q is a statement of the generated fragment (documented forms only) but the parser rejects its syntax, so none of its solutions is returned: %s", text, perr)
 }
